@@ -880,4 +880,225 @@ theorem remove_refines (b : Blk) (c : BlockCache) (hc : WF c) :
         simp only [after_nil]
         refine ⟨hc, hsame (not_mem_blocksOf_of_height hc.hts hne)⟩
 
+
+/-! ### Iterate with pruning of the emptied entries (the code since commit 6f06589) -/
+
+theorem blocksOf_filter_nonempty : ∀ (l : List Group),
+    blocksOf (l.filter (fun e => !e.blocks.isEmpty)) = blocksOf l
+  | [] => rfl
+  | g :: l => by
+    rw [List.filter_cons]
+    cases hg : g.blocks with
+    | nil => simp [hg, blocksOf_filter_nonempty l]
+    | cons x xs => simp [hg, blocksOf_filter_nonempty l]
+
+theorem pruneEmpty_wf (c : BlockCache) (h : WF c) : WF (pruneEmpty c) := by
+  unfold pruneEmpty
+  exact wf_sublist List.filter_sublist h
+
+theorem mem_pruneEmpty_nonempty (c : BlockCache) : ∀ g ∈ (pruneEmpty c).cache, g.blocks ≠ [] := by
+  intro g hg
+  unfold pruneEmpty at hg
+  have := (List.mem_filter.mp hg).2
+  intro he
+  simp [he] at this
+
+/-- `iterate_wf` for both code variants, plus: no entry appears out of nowhere -/
+theorem iterateP_wf {σ : Type} (prune : Bool) (f : σ → Blk → σ × Bool) (s : σ) (c : BlockCache) (hc : WF c) :
+    WF (iterateP prune f s c).2.1 ∧
+    (iterateP prune f s c).1 = (visitKeys f s (blocksOf c.cache)).1 ∧
+    (∀ x, x ∈ blocksOf (iterateP prune f s c).2.1.cache ↔
+        x ∈ blocksOf c.cache ∧ x ∉ (visitKeys f s (blocksOf c.cache)).2) ∧
+    (iterateP prune f s c).2.2 = c.cache.map (fun g => (g.height, g.blocks)) ∧
+    (∀ g ∈ (iterateP prune f s c).2.1.cache, ∃ g' ∈ c.cache, g'.height = g.height) ∧
+    (prune = true → ∀ g ∈ (iterateP prune f s c).2.1.cache, g.blocks ≠ []) := by
+  obtain ⟨h1, h2, h3, h4⟩ := iterate_wf f s c hc
+  have hsrc : ∀ g ∈ (iterate f s c).2.1.cache, ∃ g' ∈ c.cache, g'.height = g.height := by
+    obtain ⟨_, e2, _⟩ := iterate_simple f s c hc.gids
+    rw [e2]
+    intro g hg
+    obtain ⟨e, he, _, eh, _⟩ := iterSimple_mem f c.cache s g hg
+    exact ⟨e, he, eh.symm⟩
+  unfold iterateP
+  cases prune with
+  | false =>
+    simp only [Bool.false_eq_true, if_false]
+    exact ⟨h1, h2, h3, h4, hsrc, fun h => by cases h⟩
+  | true =>
+    simp only [if_true]
+    refine ⟨pruneEmpty_wf _ h1, h2, ?_, h4, ?_, fun _ => mem_pruneEmpty_nonempty _⟩
+    · intro x
+      unfold pruneEmpty
+      simp only
+      rw [blocksOf_filter_nonempty]
+      exact h3 x
+    · intro g hg
+      unfold pruneEmpty at hg
+      exact hsrc g (List.mem_filter.mp hg).1
+
+/-! ### how long a sorted cache can be -/
+
+theorem sorted_length_le : ∀ (l : List Group) (lo hi : Nat), l.Pairwise (fun a b => a.height < b.height) →
+    (∀ g ∈ l, lo < g.height ∧ g.height ≤ hi) → l.length ≤ hi - lo
+  | [], _, _, _, _ => by simp
+  | g :: tl, lo, hi, hs, hr => by
+    rw [List.pairwise_cons] at hs
+    have hg := hr g (by simp)
+    have ih := sorted_length_le tl g.height hi hs.2 (fun e he => ⟨hs.1 e he, (hr e (by simp [he])).2⟩)
+    simp only [List.length_cons]
+    omega
+
+/-- the heights of the entries after `Add`: the old ones and the block's -/
+theorem addWith_heights (mid : Nat → Group → List Group → List Group) (b : Blk) (c : BlockCache)
+    (hs : c.cache.Pairwise (fun a b => a.height < b.height)) (hmid : MidOk mid b c) :
+    ∀ g ∈ (addWith mid b c).cache, g.height = b.height ∨ ∃ g' ∈ c.cache, g'.height = g.height := by
+  intro g hg
+  rcases addWith_shape mid b c hs hmid with ⟨pre, rest, he, _, _, hres⟩ | ⟨pre, g0, rest, he, _, hres⟩
+  · rw [hres] at hg
+    rcases List.mem_append.mp hg with h | h
+    · exact Or.inr ⟨g, by rw [he]; simp [h], rfl⟩
+    · rcases List.mem_cons.mp h with rfl | h
+      · exact Or.inl rfl
+      · exact Or.inr ⟨g, by rw [he]; simp [h], rfl⟩
+  · rw [hres] at hg
+    unfold putIn at hg
+    obtain ⟨e, hee, rfl⟩ := List.mem_map.mp hg
+    right
+    refine ⟨e, hee, ?_⟩
+    split <;> rfl
+
+
+/-! ### no emptied entry survives (the code since commit 6f06589) -/
+
+def NoEmpty (l : List Group) : Prop := ∀ g ∈ l, g.blocks ≠ []
+
+theorem remove_shape (b : Blk) (c : BlockCache) (hc : WF c) :
+    (remove b c).cache = c.cache ∨
+    ∃ pre g rest, c.cache = pre ++ g :: rest ∧ g.height = b.height ∧
+      (((mapDel g.blocks b).isEmpty = true ∧ (remove b c).cache = pre ++ rest) ∨
+       ((mapDel g.blocks b).isEmpty = false ∧
+          (remove b c).cache = pre ++ { g with blocks := mapDel g.blocks b } :: rest)) := by
+  unfold remove
+  cases hcc : c.cache with
+  | nil => left; simp [hcc]
+  | cons f tl =>
+    simp only
+    by_cases hguard : (decide (f.height > b.height) || decide (lastHeight (f :: tl) < b.height)) = true
+    · left; simp only [hguard, if_true]; exact hcc
+    · simp only [hguard]
+      simp only [Bool.false_eq_true, if_false]
+      rw [← hcc]
+      by_cases hex : ∃ g ∈ c.cache, g.height = b.height
+      · right
+        obtain ⟨g, hgm, hg⟩ := hex
+        obtain ⟨pre, rest, he⟩ := List.append_of_mem hgm
+        have hs := hc.sorted
+        rw [he, List.pairwise_append, List.pairwise_cons] at hs
+        have hpre : ∀ x ∈ pre, x.height ≠ b.height := by
+          intro x hx; have := hs.2.2 x hx g (by simp); omega
+        have hrest : ∀ x ∈ rest, x.height ≠ b.height := by
+          intro x hx; have := hs.2.1.1 x hx; omega
+        have hgo := removeGo_match b g rest hg hrest pre [] hpre
+        have haft : after b [g.gid] g = { g with blocks := mapDel g.blocks b } := by simp [after]
+        have hgids := hc.gids
+        rw [he] at hgids
+        refine ⟨pre, g, rest, he, hg, ?_⟩
+        rw [he, hgo]
+        simp only [haft]
+        by_cases hem : (mapDel g.blocks b).isEmpty = true
+        · left
+          simp only [hem, if_true]
+          refine ⟨trivial, ?_⟩
+          rw [after_single]
+          apply updGid_not_mem
+          intro e hee
+          rw [List.pairwise_append, List.pairwise_cons] at hgids
+          rcases List.mem_append.mp hee with h | h
+          · exact hgids.2.2 e h g (by simp)
+          · exact fun hh => hgids.2.1.1 e h hh.symm
+        · right
+          have hem' : (mapDel g.blocks b).isEmpty = false := by simpa using hem
+          simp only [hem', Bool.false_eq_true, if_false]
+          refine ⟨trivial, ?_⟩
+          rw [after_single]
+          exact updGid_at (fun e => { e with blocks := mapDel e.blocks b }) pre g rest hgids
+      · left
+        have hne : ∀ g ∈ c.cache, g.height ≠ b.height := fun g hg hh => hex ⟨g, hg, hh⟩
+        rw [removeGo_nomatch b c.cache [] hne]
+        simp only [after_nil]
+
+theorem remove_noEmpty (b : Blk) (c : BlockCache) (hc : WF c) (hn : NoEmpty c.cache) :
+    NoEmpty (remove b c).cache := by
+  rcases remove_shape b c hc with e | ⟨pre, g, rest, he, _, ⟨_, e⟩ | ⟨hne, e⟩⟩
+  · rw [e]; exact hn
+  · rw [e]
+    intro x hx
+    apply hn x
+    rw [he]
+    rcases List.mem_append.mp hx with h | h <;> simp [h]
+  · rw [e]
+    intro x hx
+    rcases List.mem_append.mp hx with h | h
+    · exact hn x (by rw [he]; simp [h])
+    · rcases List.mem_cons.mp h with rfl | h
+      · intro hh
+        simp only at hh
+        rw [hh] at hne
+        simp at hne
+      · exact hn x (by rw [he]; simp [h])
+
+theorem addWith_noEmpty (mid : Nat → Group → List Group → List Group) (b : Blk) (c : BlockCache)
+    (hs : c.cache.Pairwise (fun a b => a.height < b.height)) (hmid : MidOk mid b c) (hn : NoEmpty c.cache) :
+    NoEmpty (addWith mid b c).cache := by
+  rcases addWith_shape mid b c hs hmid with ⟨pre, rest, he, _, _, hres⟩ | ⟨pre, g0, rest, he, _, hres⟩
+  · rw [hres]
+    intro x hx
+    rcases List.mem_append.mp hx with h | h
+    · exact hn x (by rw [he]; simp [h])
+    · rcases List.mem_cons.mp h with rfl | h
+      · simp [newGroup]
+      · exact hn x (by rw [he]; simp [h])
+  · rw [hres]
+    intro x hx
+    unfold putIn at hx
+    obtain ⟨e, hee, rfl⟩ := List.mem_map.mp hx
+    split
+    · intro hh
+      have : b ∈ mapPut e.blocks b := mem_mapPut.mpr (Or.inl rfl)
+      simp only at hh
+      rw [hh] at this
+      simp at this
+    · exact hn e hee
+
+theorem clear_noEmpty (h : Nat) (c : BlockCache) (hn : NoEmpty c.cache) : NoEmpty (clear h c).cache := by
+  unfold clear
+  intro g hg
+  exact hn g ((List.dropWhile_sublist _).subset hg)
+
+/-- without emptied entries `FirstHeight` is the lowest cached height (0 for an empty cache) -/
+theorem firstHeight_min (c : BlockCache) (hc : WF c) (hn : NoEmpty c.cache) :
+    (blocksOf c.cache = [] ∧ firstHeight c = 0) ∨
+    ((∃ b ∈ blocksOf c.cache, b.height = firstHeight c) ∧ ∀ x ∈ blocksOf c.cache, firstHeight c ≤ x.height) := by
+  unfold firstHeight
+  cases hcc : c.cache with
+  | nil => left; simp
+  | cons g tl =>
+    right
+    simp only
+    have hg : g ∈ c.cache := by rw [hcc]; simp
+    constructor
+    · cases hb : g.blocks with
+      | nil => exact absurd hb (hn g hg)
+      | cons b bs =>
+        refine ⟨b, ?_, hc.hts g hg b (by rw [hb]; simp)⟩
+        rw [blocksOf_cons, hb]; simp
+    · intro x hx
+      rw [← hcc] at hx
+      obtain ⟨e, he, hxe⟩ := mem_blocksOf.mp hx
+      have h1 := hc.hts e he x hxe
+      have hs := hc.sorted
+      rw [hcc] at hs he
+      have := first_le_of_sorted hs e he
+      omega
+
 end LemoProofs.SyncLemmas
